@@ -127,6 +127,55 @@ func main() {
 
 	if *src != *repo {
 		repl[filepath.Join(*repo, "go.mod")] = filepath.Join(*src, "go.mod")
+
+		// packages other than the three known ones (a tree under test may add or drop internal packages): every
+		// non-test Go file of the source tree is redirected, every one that only the repository has is deleted
+		known := map[string]bool{}
+		for _, p := range pkgs {
+			known[p.dir] = true
+		}
+
+		walk := func(root string, f func(rel string)) {
+			_ = filepath.Walk(root, func(path string, info os.FileInfo, err error) error {
+				if err != nil {
+					return nil
+				}
+
+				rel, _ := filepath.Rel(root, path)
+
+				if info.IsDir() {
+					if base := filepath.Base(path); path != root && (strings.HasPrefix(base, ".") || base == "testdata" || base == "tests" || rel == "internal/verif") {
+						return filepath.SkipDir
+					}
+
+					return nil
+				}
+
+				if strings.HasSuffix(path, ".go") && !strings.HasSuffix(path, "_test.go") {
+					d := filepath.Dir(rel)
+					if d == "." {
+						d = ""
+					}
+
+					if !known[d] {
+						f(rel)
+					}
+				}
+
+				return nil
+			})
+		}
+
+		extra := map[string]bool{}
+		walk(*src, func(rel string) {
+			extra[rel] = true
+			repl[filepath.Join(*repo, rel)] = filepath.Join(*src, rel)
+		})
+		walk(*repo, func(rel string) {
+			if !extra[rel] {
+				repl[filepath.Join(*repo, rel)] = ""
+			}
+		})
 	}
 
 	// ---- small-field stand-in -------------------------------------------------------------------------
@@ -189,6 +238,97 @@ func main() {
 
 		cur[expPkg]["verif_expdomain.go"] = gen2
 		repl[filepath.Join(*repo, expPkg, "verif_expdomain.go")] = gen2
+	}
+
+	// ---- further packages of the tree under test (added by a refactoring, say): their package-level state belongs
+	// to "the package keeps no mutable global state" as well. Each gets a VerifGlobals accessor, and the root
+	// package a generated verifExtraGlobals that concatenates them. Packages that import the root package (a
+	// cycle), commands and the test package are left out.
+	var extras []pkgInfo
+
+	{
+		known := map[string]bool{}
+		for _, p := range pkgs {
+			known[p.dir] = true
+		}
+
+		byDir := map[string]map[string]string{}
+
+		_ = filepath.Walk(*src, func(path string, info os.FileInfo, err error) error {
+			if err != nil {
+				return nil
+			}
+
+			rel, _ := filepath.Rel(*src, path)
+
+			if info.IsDir() {
+				if base := filepath.Base(path); path != *src && (strings.HasPrefix(base, ".") || base == "testdata" || base == "tests" || rel == "internal/verif") {
+					return filepath.SkipDir
+				}
+
+				return nil
+			}
+
+			d := filepath.Dir(rel)
+			if d == "." || known[d] || !strings.HasSuffix(path, ".go") || strings.HasSuffix(path, "_test.go") {
+				return nil
+			}
+
+			if ok, err := build.Default.MatchFile(filepath.Dir(path), filepath.Base(path)); err == nil && !ok {
+				return nil
+			}
+
+			if byDir[d] == nil {
+				byDir[d] = map[string]string{}
+			}
+
+			byDir[d][filepath.Base(path)] = path
+
+			return nil
+		})
+
+		for _, d := range sortedDirs(byDir) {
+			name, importsRoot := packageNameAndRootImport(byDir[d])
+			if name == "" || name == "main" || importsRoot {
+				continue
+			}
+
+			extras = append(extras, pkgInfo{d, name})
+			cur[d] = byDir[d]
+		}
+	}
+
+	var xb bytes.Buffer
+
+	xb.WriteString("package secp256k1\n\n")
+
+	for i, p := range extras {
+		fmt.Fprintf(&xb, "import x%d %q\n", i, modPath+"/"+p.dir)
+	}
+
+	xb.WriteString("\n// verifExtraGlobals renders the package-level variables of the further packages of this tree. Generated by mkoverlay.\nfunc verifExtraGlobals() string {\n\ts := \"\"\n")
+
+	for i, p := range extras {
+		fmt.Fprintf(&xb, "\ts += \" %s{\" + x%d.VerifGlobals() + \"}\"\n", p.dir, i)
+	}
+
+	xb.WriteString("\n\treturn s\n}\n")
+
+	genExtra := filepath.Join(*out, "verif_accessor_extra.go")
+	if err := os.WriteFile(genExtra, xb.Bytes(), 0o644); err != nil {
+		die("%v", err)
+	}
+
+	repl[filepath.Join(*repo, "verif_accessor_extra.go")] = genExtra
+
+	for _, p := range extras {
+		gen := filepath.Join(*out, "verif_accessor_x_"+strings.ReplaceAll(p.dir, "/", "_")+".go")
+
+		if err := os.WriteFile(gen, accessorSource(p, packageVars(cur[p.dir]), *verif), 0o644); err != nil {
+			die("%v", err)
+		}
+
+		repl[filepath.Join(*repo, p.dir, "verif_accessor.go")] = gen
 	}
 
 	// ---- accessors (generated from the package-level variables of the files actually compiled) ----------
@@ -323,6 +463,40 @@ func main() {
 	if err := os.WriteFile(filepath.Join(*out, "overlay.json"), ob, 0o644); err != nil {
 		die("%v", err)
 	}
+}
+
+func sortedDirs(m map[string]map[string]string) []string {
+	keys := make([]string, 0, len(m))
+	for k := range m {
+		keys = append(keys, k)
+	}
+
+	sort.Strings(keys)
+
+	return keys
+}
+
+// packageNameAndRootImport returns the package clause of the files and whether any of them imports the module's
+// root package.
+func packageNameAndRootImport(files map[string]string) (name string, importsRoot bool) {
+	fset := token.NewFileSet()
+
+	for _, n := range sortedKeys(files) {
+		f, err := parser.ParseFile(fset, files[n], nil, parser.ImportsOnly)
+		if err != nil {
+			continue
+		}
+
+		name = f.Name.Name
+
+		for _, im := range f.Imports {
+			if p, _ := strconv.Unquote(im.Path.Value); p == modPath {
+				importsRoot = true
+			}
+		}
+	}
+
+	return name, importsRoot
 }
 
 func sortedKeys(m map[string]string) []string {
